@@ -123,8 +123,14 @@ def run_check(prop: str, tier: str, root: str, out=sys.stdout) -> int:
 
 # rules whose instances are equivalence proofs between two programs (siblings, train swap, operand swap, projection,
 # reference programs): a proof that does not go through on an unfamiliar shape is "undecided", not a disagreement
-EQUIVALENCE_RULES = {'R12.2', 'R12.3', 'R12.2-L2', 'R07.1', 'R07.1-L5', 'R07.1-helper', 'R04.1', 'R06.5', 'R09.8', 'R11.6',
+EQUIVALENCE_RULES = {'R12.2', 'R12.3', 'R12.2-L2', 'R07.1', 'R07.1-L5', 'R07.1-helper', 'R04.1', 'R06.5', 'R06.7', 'R09.8', 'R11.6',
                      'R05.2', 'R02.6', 'R11.5'}
+
+
+# ... unless the comparison was aligned and found different values: the two programs store, return or carry
+# different canonical values at an aligned point (as opposed to shapes that could not be aligned or conditions whose
+# equivalence needs an invariant the engine does not have)
+DEFINITE_MISMATCH_KINDS = ('value', 'store', 'store-count', 'return', 'effects', 'condition')
 
 
 def _second_opinion(prop, spec, root, obs: List[Ob], out) -> List[Ob]:
@@ -168,7 +174,8 @@ def _second_opinion(prop, spec, root, obs: List[Ob], out) -> List[Ob]:
         # where a failed proof on an unfamiliar shape is not a disagreement.
         had_violation = any(o.rule == r and o.status == 'violation' and known.match(prop, o) is None for o in obs)
         alt_viol = [o for o in alt if o.status == 'violation' and known.match(prop, o) is None]
-        if not had_violation and alt_viol and r not in EQUIVALENCE_RULES:
+        definite = [o for o in alt_viol if any(f"::{k}::" in (o.key or '') for k in DEFINITE_MISMATCH_KINDS)]
+        if not had_violation and alt_viol and (r not in EQUIVALENCE_RULES or definite):
             for o in alt_viol:
                 o.extra['analysed'] = 'normal form'
                 o.detail = (o.detail + '\n' if o.detail else '') + '(found on the normal form of the source)'
